@@ -1,5 +1,6 @@
 import Dbus.Proofs.Bus.Limits
 import Dbus.Props.C05
+import Dbus.Proofs.PolicyOpt
 /-
   C06 — security policy decisions equal the documented rule semantics.
 
@@ -403,7 +404,7 @@ theorem find?_map_id (l : List Conn) (g : Conn → Conn) (hid : ∀ x, (g x).id 
 /-- **After a reload every registered connection is judged by the new policy**: its rule list is the one
     the new configuration gives its uid and groups — whatever it was allowed before. -/
 theorem reloaded_policy_governs (b : Bus) (p : Policy) (c : ConnId) (x : Conn) (hx : b.conn? c = some x) (hn : x.name.isSome = true) :
-    connPolicy (reloadPolicy b p) c = p.clientRules x.uid x.gids false := by
+    connPolicy (reloadPolicy b p) c = p.clientPolicy b.limits.maxFdsDefault x.uid x.gids false := by
   unfold connPolicy Bus.conn? reloadPolicy
   dsimp only
   rw [find?_map_id _ _ (fun y => by split <;> rfl)]
@@ -422,6 +423,43 @@ theorem own_denied_after_reload (t : Tx) (p : Policy) (c : ConnId) (x : Conn) (n
     acquire { t with bus := reloadPolicy t.bus p } c n flags = ({ t with bus := reloadPolicy t.bus p }, .error .accessDenied) := by
   unfold acquire
   have hp := reloaded_policy_governs t.bus p c x hx hn
-  simp only [h1, h2, h3, hp, hden, Bool.not_true, Bool.false_eq_true, if_false, Bool.not_false, if_true]
+  have hden' : canOwn (p.clientPolicy t.bus.limits.maxFdsDefault x.uid x.gids false) n = false := by
+    unfold Policy.clientPolicy; rw [Dbus.Proofs.PolicyOpt.canOwn_optimize]; exact hden
+  simp only [h1, h2, h3, hp, hden', Bool.not_true, Bool.false_eq_true, if_false, Bool.not_false, if_true]
+
+/-! ### the optimizer
+
+  `bus_policy_create_client_policy` ends with `bus_client_policy_optimize`: a rule that decides every
+  message (or name) of its type makes the daemon drop the rules of that type before it. The model's
+  connections hold the optimized list too. The decisions are those of the documented evaluation over
+  the full list — for every rule list, message, request state and peer. (F17 was the optimizer taking
+  rules for catch-alls that still skipped some messages; the theorems are about the repaired test.) -/
+
+theorem optimize_changes_no_send_decision (mx : Nat) (rs : List PRule) (v : MsgView) (req : Bool) (recv : PeerInfo) :
+    canSend mx (optimize mx rs) v req recv = canSend mx rs v req recv :=
+  Dbus.Proofs.PolicyOpt.canSend_optimize mx rs v req recv
+
+theorem optimize_changes_no_receive_decision (mx : Nat) (rs : List PRule) (v : MsgView) (req eav : Bool) (snd : PeerInfo) :
+    canReceive mx (optimize mx rs) v req eav snd = canReceive mx rs v req eav snd :=
+  Dbus.Proofs.PolicyOpt.canReceive_optimize mx rs v req eav snd
+
+theorem optimize_changes_no_own_decision (mx : Nat) (rs : List PRule) (name : Bytes) :
+    canOwn (optimize mx rs) name = canOwn rs name :=
+  Dbus.Proofs.PolicyOpt.canOwn_optimize mx rs name
+
+/-- the connection's own list (optimized) and the configuration's full list (contexts in order) decide alike -/
+theorem client_policy_decides_as_full_list (p : Policy) (mx uid : Nat) (gids : List Nat) (con : Bool) (v : MsgView) (req eav : Bool)
+    (peer : PeerInfo) (name : Bytes) :
+    canSend mx (p.clientPolicy mx uid gids con) v req peer = canSend mx (p.clientRules uid gids con) v req peer ∧
+    canReceive mx (p.clientPolicy mx uid gids con) v req eav peer = canReceive mx (p.clientRules uid gids con) v req eav peer ∧
+    canOwn (p.clientPolicy mx uid gids con) name = canOwn (p.clientRules uid gids con) name :=
+  ⟨optimize_changes_no_send_decision _ _ _ _ _, optimize_changes_no_receive_decision _ _ _ _ _ _, optimize_changes_no_own_decision _ _ _⟩
+
+/-- the optimizer does drop rules (non-vacuity): an allow for one interface before a deny of everything, requested replies included, goes;
+    F17's witness - a deny that only covers broadcasts - keeps the rule before it -/
+example : (optimize 16 [{ allow := true, kind := .send { iface := some [0x61] } }, { allow := false, kind := .send { requestedReply := true } },
+                        { allow := true, kind := .own none false }]).length = 2 ∧
+    (optimize 16 [{ allow := true, kind := .send { peer := some [0x61] } }, { allow := false, kind := .send { broadcast := .yes } }]).length = 2 := by
+  decide
 
 end Dbus.Props.C06
